@@ -4,6 +4,7 @@ Everything needed to re-execute an event is in (op, a, pre), so a replay file is
 The functions here call the REAL library and return the real result (or raise)."""
 from __future__ import annotations
 
+import contextlib
 import datetime as _dt
 from fractions import Fraction
 
@@ -551,6 +552,19 @@ def fmt_string(items):
     return out
 
 
+@contextlib.contextmanager
+def default_locale(p, a):
+    """a["via"] == "default": the locale is made the process-wide default (set_locale) and NOT passed to the call"""
+    if a.get("via") == "default":
+        p.set_locale(a["locale"])
+        try:
+            yield {}
+        finally:
+            p.set_locale("en")
+    else:
+        yield {"locale": a["locale"]}
+
+
 @op("format")
 def _format(a, pre):
     x = pre[0]
@@ -560,7 +574,8 @@ def _format(a, pre):
     a["zname"] = proj.cps(nm or "")
     m = a["method"]
     if m == "format":
-        return x.format(fmt, locale=a["locale"])
+        with default_locale(P(), a) as kw:
+            return x.format(fmt, **kw)
     return getattr(x, m)()
 
 
@@ -623,7 +638,8 @@ def _humanize(a, pre):
     if en == "format_diff":
         return p.format_diff(x.diff(y), a["is_now"], a["absolute"], a["locale"])
     if en == "diff_for_humans":
-        return x.diff_for_humans(y, absolute=a["absolute"], locale=a["locale"])
+        with default_locale(p, a) as kw:
+            return x.diff_for_humans(y, absolute=a["absolute"], **kw)
     if en == "diff_for_humans_now":
         old = p.DateTime.now
         try:
@@ -644,7 +660,8 @@ def _in_words(a, pre):
     else:
         d = p.Interval(pre[0], pre[1])
     a["comps"] = [int(v) for v in (d.years, d.months, d.weeks, d.remaining_days, d.hours, d.minutes, d.remaining_seconds)]
-    return d.in_words(locale=a["locale"], separator=sep)
+    with default_locale(p, a) as kw:
+        return d.in_words(separator=sep, **kw)
 
 
 # ---------------------------------------------------------------- C11
@@ -1262,8 +1279,6 @@ def _iv_comp(a, pre):
 
 
 # ---------------------------------------------------------------- C12 / C16
-import contextlib
-
 
 @contextlib.contextmanager
 def week_config(p, cfg, order="se"):
